@@ -47,12 +47,16 @@ def handshake(script, nkeys):
       m = item[1]
       if m[0] in expected:
         return ('msg', m)
+      if item[0] == 'slowmsg':
+        return ('slow',)               # an unrelated packet, and the time budget is used up: a timeout
       # unrelated packet before CNXN: ignored
 
   def out(result, waiting=False):
     return {'writes': writes, 'result': result, 'consumed': pos, 'waiting': waiting}
 
   r = wait(('AUTH', 'CNXN'))
+  if r[0] == 'slow':
+    return out(('err', 'timeout'))
   if r[0] == 'silence':
     return out(('err', 'timeout'), r[1])
   if r[0] == 'err':
@@ -67,6 +71,8 @@ def handshake(script, nkeys):
       return out(('err', 'protocol'))
     writes.append(('AUTH', AUTH_SIGNATURE, 0, 'sig%d(%s)' % (k, m[3])))
     r = wait(('AUTH', 'CNXN'))
+    if r[0] == 'slow':
+      return out(('err', 'timeout'))
     if r[0] == 'silence':
       return out(('err', 'timeout'), r[1])
     if r[0] == 'err':
@@ -76,6 +82,8 @@ def handshake(script, nkeys):
       return out(conn(m))
   writes.append(('AUTH', AUTH_RSAPUBLICKEY, 0, 'pub0\0'))
   r = wait(('CNXN',))
+  if r[0] == 'slow':
+    return out(('err', 'timeout'))     # (the device is talking, just not saying CNXN: a timeout, not "accept the key")
   if r[0] == 'silence':
     return out(('err', 'auth'), r[1])  # operator did not accept the key in time
   if r[0] == 'err':
